@@ -8,6 +8,7 @@ import (
 	"reflect"
 	"strconv"
 	"strings"
+	"time"
 	"unicode/utf8"
 
 	"google.golang.org/protobuf/encoding/protojson"
@@ -20,6 +21,13 @@ import (
 	"google.golang.org/protobuf/types/known/structpb"
 	"google.golang.org/protobuf/types/known/wrapperspb"
 )
+
+var lapT = time.Now()
+
+func lap(c *C, name string) {
+	c.R.Notes = append(c.R.Notes, fmt.Sprintf("section %s: %.1fs", name, time.Since(lapT).Seconds()))
+	lapT = time.Now()
+}
 
 func runC21(c *C) {
 	c.R.Rule = "numbers: every string of length <= 6 (quick) / 7 (thorough) over the alphabet -+.eE0129 followed by each of , ] } space EOF and a letter, through json.Decoder and (embedded in documents) protojson.Unmarshal; strings: every 1- and 2-byte body, every \\uXXXX escape, surrogate-pair boundaries, random literals with planted defects; documents: random valid documents, 16 grammar-directed mutations, token soups; encoder: every 1- and 2-byte string, random strings, random call sequences (also ill-formed), floats; marshal: random test.TestAllTypes / test3.TestAllTypes under 5 indent settings. A case is non-trivial when the implementation accepts the input (or produced output); distinct by input bytes."
@@ -35,26 +43,32 @@ func runC21(c *C) {
 		return
 	}
 	checkNumbersExhaustive(c)
+	lap(c, "checkNumbersExhaustive")
 	if c.Failed() {
 		return
 	}
 	checkStrings(c)
+	lap(c, "checkStrings")
 	if c.Failed() {
 		return
 	}
 	checkRunes(c)
+	lap(c, "checkRunes")
 	if c.Failed() {
 		return
 	}
 	checkDocs(c)
+	lap(c, "checkDocs")
 	if c.Failed() {
 		return
 	}
 	checkEncoder(c)
+	lap(c, "checkEncoder")
 	if c.Failed() {
 		return
 	}
 	checkMarshal(c)
+	lap(c, "checkMarshal")
 }
 
 func replayC21(c *C, i In) {
@@ -188,48 +202,72 @@ func checkNumbersExhaustive(c *C) {
 			count++
 			valid := ejson.Valid(s)
 			ins := make([][]byte, len(numDelims))
+			res := make([]string, len(numDelims))
 			for i, d := range numDelims {
 				ins[i] = append(append([]byte(nil), s...), d...)
+				func() {
+					defer c.Recover("json.Decoder.Read", in("number", ins[i], ""), "")
+					res[i] = implParseNumber(ins[i])
+				}()
 			}
+			whole := fmt.Sprint(len(s))
 			if isNumStart(s[0]) {
-				checkNumberInputs(c, ins, true)
 				if c.HasModel() {
-					// the grammar's voice: RFC.Number (decided through parseNumberFixed, theorem C21.number_iff) and
-					// the independent recogniser Ref.isNumber, both against encoding/json.Valid
-					want := "00"
-					if valid {
-						want = "11"
+					// one round trip: parseNumber before each follower, and the grammar's own voice
+					// (RFC.Number decided through parseNumberFixed, theorem C21.number_iff, and Ref.isNumber)
+					m := strings.Fields(c.Ask("numall %s", vh.Hex(s)))
+					if len(m) != len(numDelims)+1 {
+						c.Compare("numall arity", in("number", s, ""), fmt.Sprint(len(numDelims)+1), strings.Join(m, " "))
+					} else {
+						for i := range numDelims {
+							c.Compare("parseNumber", in("number", ins[i], ""), res[i], m[i])
+						}
+						want := "00"
+						if valid {
+							want = "11"
+						}
+						c.Compare("RFC number grammar vs encoding/json.Valid", in("number", s, "numspec"), want, m[len(numDelims)])
 					}
-					c.Compare("RFC number grammar vs encoding/json.Valid", in("number", s, "numspec"), want, c.Ask("numspec %s", vh.Hex(s)))
+				}
+				for i := range numDelims {
+					if res[i] != "none" {
+						n, _ := strconv.Atoi(res[i])
+						pre := ins[i][:n]
+						if !ejson.Valid(pre) {
+							sig := ""
+							if danglingExp.Match(pre) {
+								sig = sigExp
+							}
+							fail(c, "parseNumber accepted a prefix that is not a JSON number", in("number", ins[i], ""), sig)
+						}
+						c.Hist("number:accepted")
+					} else {
+						c.Hist("number:rejected")
+					}
+					c.Case("num:"+string(ins[i]), res[i] != "none")
 				}
 			} else {
 				// parseNext never hands these to parseNumber; the decoder must reject them
-				for _, b := range ins {
-					if r := implParseNumber(b); r != "none" {
-						c.Check(false, "decoder produced a Number token for input not starting with '-' or a digit", in("number", b, ""), "")
+				for i := range numDelims {
+					if res[i] != "none" {
+						c.Check(false, "decoder produced a Number token for input not starting with '-' or a digit", in("number", ins[i], ""), "")
 					}
-					c.Case("num:"+string(b), false)
+					c.Case("num:"+string(ins[i]), false)
 				}
 			}
 			// completeness: an RFC number followed by a delimiter is accepted whole
 			if valid {
 				for i, d := range numDelims {
-					r := implParseNumber(ins[i])
 					if d == "a" {
-						c.Check(r == "none", "number followed by a letter must be rejected", in("number", ins[i], ""), "")
+						c.Check(res[i] == "none", "number followed by a letter must be rejected", in("number", ins[i], ""), "")
 					} else {
-						c.Check(r == fmt.Sprint(len(s)), "valid JSON number not accepted whole", in("number", ins[i], ""), "")
+						c.Check(res[i] == whole, "valid JSON number not accepted whole", in("number", ins[i], ""), "")
 					}
 				}
 			}
 			// documents: always in the thorough tier; in the quick tier for every literal that is valid
 			// or that the decoder accepts before some delimiter, and for a sample of the others
-			doDocs := c.Thorough() || valid || count%16 == 0
-			if !doDocs && isNumStart(s[0]) {
-				for i := 0; i < 4 && !doDocs; i++ {
-					doDocs = implParseNumber(ins[i]) == fmt.Sprint(len(s))
-				}
-			}
+			doDocs := c.Thorough() || valid || count%16 == 0 || res[0] == whole || res[1] == whole || res[2] == whole || res[3] == whole
 			if doDocs {
 				checkNumberDocs(c, s)
 			}
